@@ -615,6 +615,47 @@ fn long_codewords(report: &Report) {
     for (i, d) in bad { report.violation(Violation { identity: i, detail: d, case: json!({"kind": "none"}) }); }
 }
 
+/// the convenience constructors and iterators are the same containers: `with_bit_capacity`, `into_iterator`,
+/// `iter`, `into_overshooting_iter` on every bit string of length <= `max_bits`
+fn wrapper_apis<W: BitArray>(report: &Report, max_bits: usize) {
+    let wn = core::any::type_name::<W>();
+    let mut bad: Bad = vec![];
+    let mut n = 0u64;
+    for len in 0..=max_bits {
+        for v in 0..(1u64 << len) {
+            let bits: Vec<bool> = (0..len).map(|i| v >> i & 1 == 1).collect();
+            n += 1;
+            let mut a = StackCoder::<W>::new();
+            let mut b = StackCoder::<W>::with_bit_capacity(len / 2);
+            let mut qa = QueueEncoder::<W>::new();
+            let mut qb = QueueEncoder::<W>::with_bit_capacity(len / 2);
+            for &x in &bits { a.write_bit(x).unwrap_infallible(); b.write_bit(x).unwrap_infallible(); qa.write_bit(x).unwrap_infallible(); qb.write_bit(x).unwrap_infallible(); }
+            if a.len() != b.len() || qa.len() != qb.len() {
+                bad.push((format!("with_bit_capacity | {wn} | coder differs from one made with new()"), format!("bits {:?}", bits)));
+            }
+            let rev: Vec<bool> = bits.iter().rev().cloned().collect();
+            let it: Vec<bool> = b.iter().map(|x| x.unwrap_infallible()).collect();
+            let owned: Vec<bool> = b.into_iterator().map(|x| x.unwrap_infallible()).collect();
+            if it != rev || owned != rev {
+                bad.push((format!("StackCoder::iter / into_iterator | {wn} | bits do not come back in reverse order"), format!("bits {:?}: iter {:?} into_iterator {:?}", bits, it, owned)));
+            }
+            if a.into_compressed().unwrap_infallible() != { let mut t = StackCoder::<W>::with_bit_capacity(3); for &x in &bits { t.write_bit(x).unwrap_infallible(); } t.into_compressed().unwrap_infallible() } {
+                bad.push((format!("with_bit_capacity | {wn} | exported words differ from a coder made with new()"), format!("bits {:?}", bits)));
+            }
+            let words_a = qa.into_compressed().unwrap_infallible();
+            let over: Vec<bool> = match qb.into_overshooting_iter() { Ok(i) => i.map(|x| x.unwrap_infallible()).collect(), Err(_) => vec![] };
+            let padded = (len + W::BITS - 1) / W::BITS * W::BITS;
+            if over.len() != padded || over[..len] != bits[..] || over[len..].iter().any(|&x| x) || words_a.len() * W::BITS != padded {
+                bad.push((format!("QueueEncoder::into_overshooting_iter | {wn} | does not yield the written bits followed by zero padding up to the word boundary"), format!("bits {:?}: got {:?}", bits, over)));
+            }
+            if bad.len() > 10 { break; }
+        }
+    }
+    report.count("wrapper_api_bit_strings", n);
+    report.add_transitions(n * 4);
+    for (i, d) in bad { report.violation(Violation { identity: i, detail: d, case: json!({"kind": "none"}) }); }
+}
+
 fn mixed_sequences(report: &Report, depth: usize) {
     let items = [Item::Bit(false), Item::Bit(true), Item::Eg(0), Item::Eg(4), Item::Eg(255), Item::Huff(0), Item::Huff(2)];
     let henc = EncoderHuffmanTree::from_probabilities::<u32, _>(&[3u32, 1, 2]);
@@ -716,6 +757,8 @@ pub fn run(report: &Report) {
     eg_checks!(report, u64, b64, u16, "boundary values 2^k-2..2^k, MAX");
     mixed_sequences(report, if q { 5 } else { 7 });
     long_codewords(report);
+    wrapper_apis::<u8>(report, if q { 11 } else { 15 });
+    wrapper_apis::<u32>(report, if q { 9 } else { 13 });
 }
 
 /// The bit-coder part of C08 (inspection never changes the output): same BFS / enumeration,
